@@ -66,7 +66,7 @@ abbrev Callback := Option (Meta → Meta)
 structure BusCfg (V : Type) where
   encode  : V → Option Bytes            -- json.Marshal / proto.Marshal (`none` = error)
   nameOf  : V → String                  -- Marshaler.Name: GenerateName or FullyQualifiedStructName
-  topicOf : String → Option String      -- GeneratePublishTopic (`none` = error)
+  topicOf : String → V → Option String  -- GeneratePublishTopic{name, value}: may read the value (`none` = error)
   hook    : Option Callback             -- OnSend / OnPublish (`none` = not configured)
   modify  : Option Callback             -- only CommandBus.SendWithModifiedMessage (`none` = nil)
   pubOk   : Bool                        -- what publisher.Publish returns
@@ -82,7 +82,7 @@ def send {V : Type} (cfg : BusCfg V) (v : V) : List BusEff × Option BusErr :=
   | none => ([], some .marshal)
   | some (md, payload) =>
     let name := cfg.nameOf v
-    match cfg.topicOf name with
+    match cfg.topicOf name v with
     | none => ([.topicGen name], some .topic)
     | some topic =>
       let e1 := [BusEff.topicGen name]
@@ -104,6 +104,12 @@ def send {V : Type} (cfg : BusCfg V) (v : V) : List BusEff × Option BusErr :=
         | none => (e2 ++ [.modify md2 payload], some .modify)
         | some (e3, md3) =>
           (e3 ++ [.publish topic md3 payload], if cfg.pubOk then none else some .publish)
+
+/-- A bus keeps no state between sends: every send is governed by the configuration as it is at that moment (the
+    generator may read the value, the callbacks may consult state the application changes between sends) and by the
+    value sent – never by what was sent before. -/
+def sendSeq {V : Type} (l : List (BusCfg V × V)) : List (List BusEff × Option BusErr) :=
+  l.map (fun p => send p.1 p.2)
 
 def isPublish : BusEff → Bool
   | .publish .. => true
